@@ -14,7 +14,7 @@ LEVEL = 'exploration'
 NSIMS = 2000
 RULE = ('Engine A: lattice of experiment frames with cost columns: 4 shapes x n_pre in {4,6,10} x n_test in {1,3} x cooldown '
         'in {0,2} x use_cooldown x scenario in {fixed (pre-period and control test-period cost exactly 0), variable (costs O(10), '
-        'strong cost effect), control-cost-only-in-cooldown, pre-period-cost (both groups), treatment-pre-cost-only, control-test-cost-only} x tails x level in {0.5,0.8,0.9,0.95} x '
+        'strong cost effect), control-cost-only-in-cooldown, pre-period-cost (both groups), treatment-pre-cost-only, control-test-cost-only, a stray 1e-6 booking in the pre-period / in the test period of control next to a 50 000-a-day campaign, low-spend (negative predicted spend)} x tails x level in {0.5,0.8,0.9,0.95} x '
         'threshold in {0, 1.5} x random_state in {0,7} (quick: sub-grid) x object state in {fresh, already fitted to ANOTHER experiment (other cost scenario, other lengths) and asked for all reports}. Oracle: fixed: estimate/lower/upper = response-effect '
         'figures / incremental cost (closed form), incremental_response_{lower,upper} = bounds x cost; variable: two calls '
         'with the same integer random_state give identical reports; both: lower <= estimate <= upper (scope S1/S2), scenario '
@@ -59,6 +59,22 @@ def cost_series(scen, x, npre, ntest, ncool, seed):
         ct = np.zeros(n)
         cc[npre:npre + ntest] = 8.0
         ct[npre:npre + ntest] = 400.0
+    elif scen in ('stray-pre-cost', 'stray-control-test-cost'):
+        # a large campaign (50 000 per test day) and ONE stray booking of 1e-6 outside it: tiny relative to the spend, yet
+        # not zero - the statement (and the implementation's absolute 1e-10 cut-off) say "variable"
+        cc = np.zeros(n)
+        ct = np.zeros(n)
+        ct[npre:npre + ntest] = 50000.0
+        if scen == 'stray-pre-cost':
+            ct[1] = 1e-6
+        else:
+            cc[npre] = 1e-6
+    elif scen == 'low-spend':
+        # treatment spends almost nothing before the test while control spends visibly: the fitted line has a negative
+        # intercept and PREDICTS negative spend on days when control spends little (all observed costs are >= 0)
+        cc = 8.0 + 4 * np.array(frames.lcg_noise(seed + 97, n, 0, 5), float)
+        ct = np.maximum(0.0, 0.5 * cc - 6.0 + np.array(frames.lcg_noise(seed + 101, n, 0, 1), float))
+        ct[npre:npre + ntest] += 400.0
     else:
         raise KeyError(scen)
     return cc, ct
@@ -68,7 +84,8 @@ def cases(tier, seed):
     out = []
     thorough = tier == 'thorough'
     for sh, npre, ntest, ncool in itertools.product(frames.SHAPES[:4] if not thorough else frames.SHAPES, (4, 6, 10), (1, 3), (0, 2)):
-        for scen in ('fixed', 'variable', 'control-cost-in-cooldown', 'pre-period-cost', 'treatment-pre-cost-only', 'control-test-cost-only'):
+        for scen in ('fixed', 'variable', 'control-cost-in-cooldown', 'pre-period-cost', 'treatment-pre-cost-only', 'control-test-cost-only',
+                     'stray-pre-cost', 'stray-control-test-cost', 'low-spend'):
             for use_cd in ((True, False) if ncool else (False,)):
                 settings = [(t, l, th, rs) for t in (1, 2) for l in (0.5, 0.8, 0.9, 0.95) for th in (0.0, 1.5) for rs in (0, 7)]
                 if not thorough:
